@@ -261,6 +261,15 @@ let run (path : string) =
        | OWithdraw (_, lid, _, amt, _) ->
          if not (holds_C08_pledged pre obs lid amt) then
            predfail ~case:!case ~step:!step ~pred:"holds_C08_pledged" ~kf:"none" ~detail:kind
+       | ORepayWithdraw (u, bid, e, _) ->
+         (* the state after the CloseBorrow half is computed from the OBSERVED pre-state; the withdrawal must take
+            exactly the released collateral out of AvailableToBorrow and leave every pledge alone *)
+         (match zget pre.borrows bid, close_borrow !cfg pre u bid e with
+          | Some b0, Base.Ok st1 ->
+            bump "repaywithdraw:pledged_checked";
+            if not (holds_C08_pledged st1 obs b0.b_lend b0.b_in) || zget obs.borrows bid <> None then
+              predfail ~case:!case ~step:!step ~pred:"holds_C08_pledged" ~kf:"none" ~detail:kind
+          | _ -> predfail ~case:!case ~step:!step ~pred:"holds_C08_pledged" ~kf:"none" ~detail:"repaywithdraw_without_close")
        | OCloseLend (_, lid, _) ->
          let amt = (match zget pre.lends lid with Some l -> l.l_avail | None -> BinNums.Z0) in
          (* a closed position must be gone and must have had nothing pledged *)
